@@ -7,9 +7,12 @@
 mod checks;
 mod dest;
 mod dump;
+mod env;
+mod envrun;
 mod idle;
 mod puppet;
 mod shapes;
+mod watch;
 
 use mdv_core::report::{load_replay, Report, Tier};
 
@@ -25,6 +28,39 @@ fn main() {
         std::process::exit(2);
     }
     let prop = args[1].as_str();
+    if prop == "ctxdiff" {
+        let mut b = shapes::build(&shapes::Shape::threads(3));
+        let mut prev: Option<Vec<u8>> = None;
+        for round in 0..3 {
+            b.p.quiesce();
+            if let dump::DumpResult::Ok(bytes) = dump::dump_mem(b.p.pid, &dump::DumpOpts::default()) {
+                let d = mdv_core::mdparse::Dump::parse(&bytes);
+                let t = d.threads.iter().find(|t| t.tid == b.p.pid as u32).unwrap();
+                let c = d.loc_bytes(&bytes, &t.context).unwrap().to_vec();
+                if let Some(p) = &prev {
+                    let diffs: Vec<usize> = (0..c.len()).filter(|i| c[*i] != p[*i]).collect();
+                    println!("round {round}: differing context offsets: {diffs:?}");
+                }
+                prev = Some(c);
+            }
+        }
+        return;
+    }
+    if prop == "trace" {
+        // debugging aid: print the intercepted libc call trace of one plain dump of a 3-thread puppet
+        let mut b = shapes::build(&shapes::Shape::threads(3));
+        let mut tids = vec![b.p.pid];
+        tids.extend(b.p.threads.iter().map(|t| t.tid));
+        env::arm(env::Env::new(b.p.pid, tids));
+        let r = dump::dump_mem(b.p.pid, &dump::DumpOpts::default());
+        let e = env::disarm().unwrap();
+        for c in &e.trace {
+            println!("{:<40} {:<18} ret={:<8} {}", c.key, c.func, c.ret, c.detail);
+        }
+        println!("calls: {}  result ok: {}  refused: {:?} dev opens: {:?}", e.trace.len(), matches!(r, dump::DumpResult::Ok(_)), e.refused, e.dev_opens);
+        b.p.quiesce();
+        return;
+    }
     let (tier, replay) = if args[2] == "--replay" {
         let path = args.get(3).cloned().unwrap_or_default();
         match load_replay(&path) {
@@ -46,6 +82,7 @@ fn main() {
     };
     // Panics of the subject are caught per case where the property is about totality; anything
     // else that panics is the harness itself -> machinery exit code.
+    watch::start(prop, std::time::Duration::from_secs(if tier == Tier::Thorough { 300 } else { 90 }), matches!(prop, "C02" | "C03"));
     let ctx = Ctx { tier, replay };
     let level = checks::level_of(prop);
     let mut rep = Report::new(prop, tier, level);
